@@ -245,13 +245,32 @@ def _extra_conn(ch, ops, d, hier, top):
     live = live_conn_ops(ops, d, hier)
     if not live:
         return None
-    i = ch.pick(live, "extra")
+    # (arrays whose target has bundle ports first, half of the time: only the flattening passes see those)
+    arrs = [j for j in live if ops[j][4][0] == "s" and d.mods[ops[j][1]].insts[ops[j][2]]["kind"] == "arr" and any(isinstance(sh, tuple) for sh in d.target_ports(d.mods[ops[j][1]].insts[ops[j][2]]["target"]).values())]
+    i = ch.pick(arrs, "extra_arr") if arrs and ch.chance(1, 2) else ch.pick(live, "extra")
     op = ops[i]
     if op[4][0] not in ("s", "b"):
         return None
     info = d.mods[op[1]].insts[op[2]]
-    nop = ["conn", op[1], op[2], "nosuchport", op[4], "connect"]
-    return ops[: i + 1] + [nop] + ops[i + 1 :], f"{'top' if op[1] == top else 'deep'}:{info['kind']}"
+    pname = "nosuchport"
+    where = ""
+    if op[4][0] == "s":
+        # sometimes the extra port is named like a *flattened member* of one of the target's bundle
+        # ports (`b_x`): no such port exists before flattening, and afterwards it must not swallow it
+        w = d.mods[op[1]].sigs[op[4][1]][0]
+        flats = []
+        for port, shape in d.target_ports(info["target"]).items():
+            if isinstance(shape, tuple):
+                for path, lw in d.bundle_leaves(shape[1]):
+                    if lw == w or (info["kind"] == "arr" and lw * info["n"] == w):
+                        flats.append(port + "_" + "_".join(path))
+        if flats and ch.chance(1, 2):
+            pname = ch.pick(sorted(flats), "flatname")
+            where = ":flatname"
+    if pname in d.target_ports(info["target"]):
+        return None
+    nop = ["conn", op[1], op[2], pname, op[4], "connect"]
+    return ops[: i + 1] + [nop] + ops[i + 1 :], f"{'top' if op[1] == top else 'deep'}:{info['kind']}{where}"
 
 
 def _bad_port_ref(ch, ops, d, hier, top):
